@@ -107,6 +107,14 @@ CLAIMED["C16"] = ("DESIGN.md §4 C16",
     "trusted: pysym, exact half-integer float model; header records are attribute bags; outside: names, captions, "
     "visibility, coordinates, non-integral stored sizes")
 
+CLAIMED["C07"] = ("DESIGN.md §4 C07",
+    "The real recalculate_row_info (offsets in bounds, 4-byte aligned, increasing, decoded back by the library's own "
+    "reader), the real tile loop of recalculate_table_data for a symbolic number of rows across the 256/512 boundaries "
+    "(every row in exactly one tile at its declared index), and the real ObjectStore id allocation for symbolic existing "
+    "ids (fresh, distinct, high-water mark updated).",
+    "trusted: pysym; protobuf records and the object store are attribute bags, other save steps are no-op stubs; outside: "
+    "reference closure, package metadata listing, re-openability by Numbers")
+
 NOT_APPLICABLE = {}
 
 
